@@ -414,6 +414,7 @@ package erpc
 // sibling route or group) must not be able to overwrite it through spare capacity.
 //@ func (*PluginContainer).cloneAndAppendMiddle
 //@   property C09
+//@   modifies p.refreshTree
 //@   requires p.left != nil && p.middle != nil && p.right != nil
 //@   let M = old(len(p.middle.plugins))
 //@   ensures[shape] fresh(result) && result.left == old(p.left) && result.right == old(p.right) && fresh(result.middle)
@@ -480,3 +481,56 @@ package erpc
 //@   requires s.peer != nil && s.peer.pluginContainer != nil && s.socket != nil
 //@   ensures[pre-write-hooks-once] ghost.preWritePushRuns == old(ghost.preWritePushRuns) + 1
 //@   loop 1: invariant[hooks-ran-once] ghost.preWritePushRuns == old(ghost.preWritePushRuns) + 1
+
+// ---- C10: routes dispatch to exactly their handler ------------------------------
+//@ func (*SubRouter).getCall
+//@   property C10
+//@   requires r.callHandlers != nil && r.unknownCall != nil
+//@   modifies nothing
+//@   ensures[exact-match] mapHas(r.callHandlers, uriPath) ==> result.1 && result.0 == r.callHandlers[uriPath]
+//@   ensures[unknown-fallback] !mapHas(r.callHandlers, uriPath) && *r.unknownCall != nil ==> result.1 && result.0 == *r.unknownCall
+//@   ensures[not-found] !mapHas(r.callHandlers, uriPath) && *r.unknownCall == nil ==> !result.1 && result.0 == nil
+//@ func (*SubRouter).getPush
+//@   property C10
+//@   requires r.pushHandlers != nil && r.unknownPush != nil
+//@   modifies nothing
+//@   ensures[exact-match] mapHas(r.pushHandlers, uriPath) ==> result.1 && result.0 == r.pushHandlers[uriPath]
+//@   ensures[unknown-fallback] !mapHas(r.pushHandlers, uriPath) && *r.unknownPush != nil ==> result.1 && result.0 == *r.unknownPush
+//@   ensures[not-found] !mapHas(r.pushHandlers, uriPath) && *r.unknownPush == nil ==> !result.1 && result.0 == nil
+
+// handler makers enumerate methods by reflection and build Handler values; they
+// do not touch the routing tables (assumption; reflection is outside contracts)
+//@ iface dynamic:func(string, interface{}, *erpc.PluginContainer) ([]*erpc.Handler, error)
+//@   flags libframe
+//@ trusted (*pluginSingleContainer).postReg
+//@   flags libframe
+//@ trusted warnInvalidHandlerHooks
+//@   flags libframe
+
+// reg: every returned name is a key this call inserted, into the table selected
+// by routerTypeName only; the conflict test dominates the insert, so the names
+// are new and pairwise distinct; all other entries of both tables are untouched.
+//@ func (*SubRouter).reg
+//@   property C10
+//@   requires r.callHandlers != nil && r.pushHandlers != nil && r.callHandlers != r.pushHandlers && r.pluginContainer != nil
+//@   requires r.pluginContainer.left != nil && r.pluginContainer.middle != nil && r.pluginContainer.right != nil
+//@   let isCall = routerTypeName == pnCall
+//@   let H = isCall ? r.callHandlers : r.pushHandlers
+//@   let O = isCall ? r.pushHandlers : r.callHandlers
+//@   ensures[names-are-new-keys] forall i int :: 0 <= i && i < len(result) ==> mapHas(H, result[i]) && !old(mapHas(H, now(result[i])))
+//@   ensures[names-distinct] forall i int, j int :: 0 <= i && i < j && j < len(result) ==> result[i] != result[j]
+//@   ensures[existing-kept] forall k string :: old(mapHas(H, k)) ==> mapHas(H, k) && H[k] == old(H[k])
+//@   ensures[other-namespace-untouched] forall k string :: mapHas(O, k) == old(mapHas(O, k)) && O[k] == old(O[k])
+//@   loop 0: invariant[idx] $idx >= -1
+//@   loop 0: invariant[names-own-array] cap(names) == 0 || fresh(names)
+//@   loop 0: invariant[names-in-table] forall i int :: 0 <= i && i < len(names) ==> mapHas(H, names[i])
+//@   loop 0: invariant[names-are-new] forall i int :: 0 <= i && i < len(names) ==> !old(mapHas(H, now(names[i])))
+//@   loop 0: invariant[names-distinct] forall i int, j int :: 0 <= i && i < j && j < len(names) ==> names[i] != names[j]
+//@   loop 0: invariant[existing-kept] forall k string :: old(mapHas(H, k)) ==> mapHas(H, k) && H[k] == old(H[k])
+//@   loop 0: invariant[other-namespace-untouched] forall k string :: mapHas(O, k) == old(mapHas(O, k)) && O[k] == old(O[k])
+
+// name mapping: total (no out-of-range write when an underscore is rewritten)
+//@ func toServiceMethods
+//@   property C10
+//@   flags safety
+//@   loop 0: invariant[sep-slot] last == 95 ==> len(a) >= 1
